@@ -66,7 +66,7 @@ impl PanicRec {
     pub fn sig(&self) -> String {
         // one dependency defect reached below many serializers (overflow-checking build only):
         // keyed by the dependency location, not by whichever library frame called it
-        if self.msg.contains("attempt to negate with overflow") && self.loc.contains("cbor_event") {
+        if self.msg.contains("attempt to negate with overflow") && self.loc.contains("cbor_event") && self.loc.contains("se.rs") {
             return "cbor_event/write_negative_integer/negate-overflow-for-minus-2^63".to_string();
         }
         format!("panic@{}:{}", self.site, self.norm_msg())
